@@ -235,6 +235,9 @@ def priming_family(kind):
     )[kind]
     aut = trl.Automaton()
     aut.declare_variables(**decls[0])
+    # siblings for prime.rename_variables, declared next to the originals (a rename across the ~100 table
+    # constants further down the order does not finish in dd.autoref)
+    aut.declare_variables(**{n + '2': d for n, d in decls[0].items()})
     aut.declare_constants(**decls[1])
     flex = list(decls[0])
     params = []
@@ -317,6 +320,16 @@ def priming_family(kind):
     mu = aut.add_expr(mexpr)
     smp2 = dict(smp, over=mixed, table_constants=len(mparams))
     decide('unprime of an action over ' + ' '.join(mixed), prm.unprime(mu, aut), mu, ren_of(flex, False), smp2)
+    # prime.rename_variables: x -> x2 renames x and x' together (siblings declared with the same types)
+    for sub in (['x'], ['y'], ['x', 'y']):
+        ren = {}
+        for n in sub:
+            for b, b2 in zip(link.bits_of(n, aut.vars[n]), link.bits_of(n + '2', aut.vars[n + '2'])):
+                ren[b] = b2
+                ren[b + "'"] = b2 + "'"
+        # base bit b of `mu` is not read any more; the result reads b2 where mu read b: result(a) = mu(a with b := a[b2])
+        decide(f'rename_variables {sub} -> siblings in an action',
+               prm.rename_variables({n: n + '2' for n in sub}, mu, aut), mu, ren, smp2)
     for sub in (['x'], ['y'], ['y', 'z'], ['x', 'y']):
         decide(f'replace_with_unprimed {sub} in an action', aut.replace_with_unprimed(sub, mu), mu, ren_of(sub, False), smp2)
         decide(f'replace_with_primed {sub} in an action', aut.replace_with_primed(sub, mu), mu, ren_of(sub), smp2)
@@ -354,8 +367,13 @@ def priming_family(kind):
             vars_in_support={n for n in dep_unprimed if n in flex} | {n[:-1] for n in dep_primed},
             is_state_predicate=not dep_primed,
             is_proper_action=bool(dep_primed) and bool(dep_unprimed),
-            is_primed_state_predicate=not {n for n in dep_unprimed if n in flex})
+            is_primed_state_predicate=not {n for n in dep_unprimed if n in flex},
+            split_support=(dep_unprimed, dep_primed),
+            is_action_of_x=dep_primed <= {"x'"}, is_action_of_yz=dep_primed <= {"y'", "z'"})
+        aut.varlist.update(px=['x'], pyz=['y', 'z'])
         got = dict(
+            split_support=tuple(prm.split_support(w, aut)),
+            is_action_of_x=prm.is_action_of_player(w, 'px', aut), is_action_of_yz=prm.is_action_of_player(w, 'pyz', aut),
             rigid_support=prm.rigid_support(w, aut), flexible_support=prm.flexible_support(w, aut),
             primed_support=prm.primed_support(w, aut), unprimed_support=prm.unprimed_support(w, aut),
             vars_in_support=prm.vars_in_support(w, aut), is_state_predicate=prm.is_state_predicate(w),
